@@ -116,15 +116,25 @@ int main(int argc, char** argv) {
   api = start(ws, ws, true);
   rime::Registry::instance().Register("vt_translator", new rime::Component<VtTranslator>);
   std::vector<RimeSessionId> sessions;
+  std::vector<bool> alive;
   RimeSessionId cur = 0;
   for (auto& l : lines) {
     std::istringstream is(l);
     std::string w; is >> w;
     if (w.empty() || w == "env" || w == "table" || w[0] == '#') continue;
     int ret = 1; std::string text;
-    if (w == "new") { cur = api->create_session(); sessions.push_back(cur); ret = cur != 0; }
+    if (w == "ids") {
+      // live ids must be pairwise distinct (and non-zero)
+      std::vector<RimeSessionId> live;
+      for (size_t k = 0; k < sessions.size(); ++k) if (alive[k]) live.push_back(sessions[k]);
+      bool distinct = true;
+      for (size_t a = 0; a < live.size(); ++a) { if (!live[a] || !api->find_session(live[a])) distinct = false; for (size_t b = a + 1; b < live.size(); ++b) if (live[a] == live[b]) distinct = false; }
+      printf("ids live=%zu distinct=%d\n", live.size(), distinct ? 1 : 0);
+      continue;
+    }
+    if (w == "new") { cur = api->create_session(); sessions.push_back(cur); alive.push_back(cur != 0); ret = cur != 0; }
     else if (w == "use") { size_t k; is >> k; cur = k < sessions.size() ? sessions[k] : 0; }
-    else if (w == "destroy") { size_t k; is >> k; ret = k < sessions.size() ? api->destroy_session(sessions[k]) : 0; }
+    else if (w == "destroy") { size_t k; is >> k; ret = k < sessions.size() ? api->destroy_session(sessions[k]) : 0; if (k < alive.size() && ret) alive[k] = false; }
     else if (w == "schema") { std::string id; is >> id; ret = api->select_schema(cur, id.c_str()); }
     else if (w == "key") { long code, mask; is >> code >> mask; ret = api->process_key(cur, (int)code, (int)mask); }
     else if (w == "select") { size_t i; is >> i; ret = api->select_candidate(cur, i); }
